@@ -2471,6 +2471,12 @@ class ACCEnterDataTrans(Transformation):
                 current = current.parent
             posn = sched.children.index(current)
 
+        # An 'acc routine' directive belongs to the specification part of the
+        # routine and so must stay ahead of this (executable) directive.
+        while (posn < len(sched.children) and
+               isinstance(sched.children[posn], ACCRoutineDirective)):
+            posn += 1
+
         # Add the directive at the position determined above, i.e. just before
         # the first statement containing an OpenACC compute construct.
         data_dir = AccEnterDataDir(parent=sched, children=[])
